@@ -170,13 +170,20 @@ Definition has_initial_run (cs : list ctrl) : bool :=
   existsb (fun c => match c with CConst _ _ _ => false | _ => true end) cs.
 Definition poisons (cs : list ctrl) : bool :=
   has_initial_run cs && match recyclability cs with Some _ => true | None => false end.
-Fixpoint run_steps_div (divs : list bool) (cs : list ctrl) (stored poisoned : bool) (fr : fstate) : list (option fstate) :=
+(* ovr = only_v_results (batch reading active): _recycled_powerflow (powerflow.py:131-139) returns before _ppci_to_net, the
+   only place that raises LoadflowNotConverged, so a recycled power flow that did not converge is not noticed: the step is
+   recorded as if it had been solved ([SSilent]) and the internals stay in place *)
+Inductive sres := SFailed | SSolved (fr : fstate) | SSilent.
+Fixpoint run_steps_div (divs : list bool) (cs : list ctrl) (ovr stored poisoned : bool) (fr : fstate) : list sres :=
   match divs with
   | [] => []
   | d :: ds =>
-      if poisoned then None :: run_steps_div ds cs stored true fr
-      else if d then None :: run_steps_div ds cs false (poisons cs) fr
-      else let fr' := time_step cs stored fr in Some fr' :: run_steps_div ds cs true false fr'
+      if poisoned then SFailed :: run_steps_div ds cs ovr stored true fr
+      else if d then
+        (if ovr && stored && (match recyclability cs with Some _ => true | None => false end)
+         then SSilent :: run_steps_div ds cs ovr true false fr
+         else SFailed :: run_steps_div ds cs ovr false (poisons cs) fr)
+      else let fr' := time_step cs stored fr in SSolved fr' :: run_steps_div ds cs ovr true false fr'
   end.
 (* G12c: a diverging step cannot poison the following ones *)
 Definition G12c (cs : list ctrl) : bool := negb (poisons cs).
@@ -311,6 +318,6 @@ Definition run_ts_div (cs : list ctrl) (divs : list bool) (l : list logv) : out 
   let rec := recyclability cs in
   OL [ olist (fun c => oflags (ctrl_flags c)) cs;
        oflags rec;
-       olist (fun r => match r with None => ONone | Some fr => OB (solve_is_fresh fr) end)
-             (run_steps_div divs cs false false all_fresh);
+       olist (fun r => match r with SFailed => ONone | SSolved fr => OB (solve_is_fresh fr) | SSilent => OS "silent" end)
+             (run_steps_div divs cs (match ts_writer rec l with WBatchOk => true | _ => false end) false false all_fresh);
        owres (ts_writer rec l) ].
